@@ -320,7 +320,7 @@ fn oneshot_decode(ch: &mut Chooser, ctx: &mut Ctx, op_no: usize) {
                 let count = if on_rec { r } else { k };
                 list[j].0 = match ch.pick("os.dec.f.idx", 5) {
                     0 => count,
-                    1 => count + 1,
+                    1 => count.saturating_add(1),
                     2 => usize::MAX,
                     3 => usize::MAX - count.min(65536),
                     _ => 65536,
